@@ -148,7 +148,7 @@ func mutate(r *rand.Rand, s string) string {
 
 var serveMethods = []string{"GET", "GET", "GET", "POST", "HEAD", "OPTIONS", "DELETE", "PUT", "TRACE", "PATCH", "BOGUS", "", "get"}
 var handleMethods = []string{"GET", "GET", "POST", "DELETE", "PUT", "PATCH", "CONNECT", "TRACE"}
-var badMethods = []string{"HEAD", "OPTIONS", "BOGUS", "", "get", "TRACE"}
+var badMethods = []string{"HEAD", "OPTIONS", "BOGUS", "", "get", "TRACE", "head", "options", "Post"}
 
 // rtProfile tunes the generic router-program generator for one property.
 type rtProfile struct {
@@ -283,8 +283,23 @@ func genRT(pr rtProfile) func(r *rand.Rand, w *W) [][]string {
 		var stems []string
 		pool := []string{}
 		mwN := 0
+		sharedGroups, sharedLen := 0, 0
 		newMws := func(max int) []string {
 			var ids []string
+			if max >= 1 && r.Intn(5) == 0 { // a prefix of a middleware array other calls also take prefixes of:
+				// first a short prefix, later longer ones (`common[:1]...` then `common...`)
+				if sharedGroups == 0 || sharedLen >= 4 {
+					sharedGroups++
+					sharedLen = 0
+				}
+				sharedLen++
+				grp := "S" + itoa(sharedGroups)
+				for i := 0; i < sharedLen; i++ {
+					ids = append(ids, grp+"."+itoa(i))
+				}
+				w.Count("shared-middleware-array")
+				return ids
+			}
 			for i := r.Intn(max + 1); i > 0; i-- {
 				mwN++
 				ids = append(ids, "m"+itoa(mwN))
@@ -355,7 +370,7 @@ func genRT(pr rtProfile) func(r *rand.Rand, w *W) [][]string {
 				pool = append(pool, p)
 				stems = append(stems, p)
 			}
-			switch r.Intn(9) {
+			switch r.Intn(11) {
 			case 0: // a parameter route that is a prefix of another one, emptied by explicit method lists, then its twin
 				par := pick(r, []string{"{id}", "{id:digit}", "{id:\\d+}", "{id:[a-z]+}"})
 				if par == "{id:digit}" && len(ics) == 0 {
@@ -450,6 +465,45 @@ func genRT(pr rtProfile) func(r *rand.Rand, w *W) [][]string {
 				}
 				ops = append(ops, []string{"serve", "GET", base + "/users/5/posts"}, []string{"serve", "GET", base + "/users/5"})
 				w.Count("shape-endpoint-param-and-extension")
+			case 8: // >= 5 literal siblings survive the removal (by prefix, by pattern) of one that is not the last:
+				// the first-byte index must be rebuilt, the survivors after the removed one move up
+				sib := []string{"alpha", "beta", "gamma", "delta", "eps", "zeta", "omega"}[:6+r.Intn(2)]
+				for _, c := range sib {
+					addH(base+"/"+c, "GET")
+				}
+				if r.Intn(2) == 0 {
+					addH(base+"/{any}", "GET")
+				}
+				victim := sib[r.Intn(len(sib)-1)]
+				if pr.facades && r.Intn(3) != 0 {
+					id := "c" + itoa(len(ops))
+					ops = append(ops, append([]string{"prefix", id, "r", base + "/" + victim[:1+r.Intn(len(victim))]}, list()...), []string{"clean", id})
+				} else {
+					ops = append(ops, append([]string{"remove", "r", base + "/" + victim}, list()...))
+				}
+				for _, c := range sib {
+					ops = append(ops, []string{"serve", "GET", base + "/" + c})
+				}
+				w.Count("shape-index-after-removal")
+			case 9: // a facade object created BEFORE a Use call registers a route AFTER it (and a nested one likewise)
+				if !pr.facades || !pr.use {
+					addH(base+"/late", "GET")
+					break
+				}
+				fid := "s" + itoa(len(ops))
+				kind := pick(r, []string{"prefix", "prefix", "resource"})
+				pat := base + "/z" + pick(r, []string{"", "/{id}"})
+				ops = append(ops, append([]string{kind, fid, "r", pat}, list(newMws(1)...)...))
+				tgt := fid
+				if kind == "prefix" && r.Intn(2) == 0 {
+					tgt = fid + "n"
+					ops = append(ops, append([]string{pick(r, []string{"prefix", "resource"}), tgt, fid, "/n"}, list(newMws(1)...)...))
+				}
+				ops = append(ops, append([]string{"use"}, list(newMws(2)...)...))
+				hid++
+				ops = append(ops, append([]string{"handle", tgt, pick(r, []string{"/late", "", "/l/{x}"}), "h" + itoa(hid)}, append(list(newMws(1)...), list("GET")...)...))
+				observe()
+				w.Count("shape-facade-before-use")
 			default: // '-' parameters with alternations
 				addH(base+"/{-ver:v1|v2}/users", "GET")
 				addH(base+"/{kind:a|ab}/x", "GET")
